@@ -28,6 +28,10 @@ Differences from Corr.v, all extensionally invisible on the sequences that are r
   * MIter / SIter / LIter: the callback PRINTS what it visits (the model's callback returns tt, the specification's
     observation is empty); the expected output is the specification's with the state spliced in as observation
     (`expected()`), so that the iteration order of the compiled `iter` is checked too.
+  * the driver's own `match` on an Option<Int> tests the Some arm first: the emitted TypeScript tests a payload-free
+    variant with the loose `o == 1`, and `[1] == 1` holds in JavaScript, so a None-first match takes Some(Int.init(1))
+    for None (open finding C04-ts-loose-equality, a back-end defect, not a std defect; the first version of this monitor
+    ran into it: Set<Int>.min() of a set whose minimum is 1 printed as None in node, correctly in Chrome).
 A run-time panic of the compiled program (Process.panic "Bad tree" / "Invalid state" ...) ends the sequence with
 status 1, like `Panic` in Corr.v; any other abnormal ending (stack overflow, engine fault, timeout) with status 3.
 
@@ -53,7 +57,7 @@ PROFILE = 'release'               # harness profile used to compile the drivers
 STD_MODULES = ['boxed', 'interfaces', 'list', 'map', 'option', 'result', 'set', 'tuples']
 ITER_OPS = {'MIter', 'SIter', 'LIter'}
 CAP = {'quick': 360, 'thorough': 24000}          # how many of the given sequences are compiled
-WASM_EVERY = {'quick': 1, 'thorough': 10}         # every n-th sequence also runs as WebAssembly in headless Chrome
+WASM_EVERY = {'quick': 1, 'thorough': 1}         # every n-th sequence also runs as WebAssembly in headless Chrome
 
 ALL_OPS = {
     'map': ['MIns', 'MRem', 'MGet', 'MHas', 'MUpd', 'MUnion', 'MCUnion', 'MMerge', 'MSplit', 'MFilter', 'MPartition', 'MFold',
@@ -613,7 +617,7 @@ def _ts_run(path, timeout_ms):
 def _wasm_run(jobs_file, njobs, timeout_ms):
     """engines/run_wasm.js on a job file.  The runner's per-job timeout timers keep node alive for timeout_ms after
     the last result, so the output is read as it comes and the process is ended once every job has reported."""
-    out, engine_ok = {}, True
+    out, engine_ok, t0 = {}, True, time.time()
     p = subprocess.Popen(['node', os.path.join(ENG, 'run_wasm.js'), jobs_file, str(timeout_ms)],
                          stdout=subprocess.PIPE, stderr=subprocess.DEVNULL, text=True)
     try:
@@ -627,6 +631,7 @@ def _wasm_run(jobs_file, njobs, timeout_ms):
             out[o['id']] = {'lines': o['lines'], 'ending': o['ending']}
             if len(out) >= njobs:
                 break
+        secs = time.time() - t0
         try:
             p.wait(timeout=4)                     # lets the runner close the browser
         except subprocess.TimeoutExpired:
@@ -638,7 +643,7 @@ def _wasm_run(jobs_file, njobs, timeout_ms):
     finally:
         if p.poll() is None:
             p.kill()
-    return out, engine_ok
+    return out, engine_ok, secs
 
 
 def _compile(job):
@@ -725,6 +730,11 @@ class Runner:
             for (job, p, w, d), r in zip(jobs, comp):
                 if r['compile'] == 'ok':
                     ok.append((job, p, w, d))
+                    for fn in ('__all__.wat', 'Main.wasm.js', '__samlang_loader__.js'):
+                        try:
+                            os.remove(os.path.join(d, fn))
+                        except OSError:
+                            pass
                 else:
                     os.makedirs(d, exist_ok=True)
                     with open(os.path.join(d, 'Main.sam'), 'w') as f:
@@ -745,9 +755,9 @@ class Runner:
                 self.t_ts += time.time() - t0
                 wasm_out = {}
                 if wf is not None:
-                    wasm_out, engine_ok = wf.result()
+                    wasm_out, engine_ok, secs = wf.result()
                     self.engine_ok = self.engine_ok and engine_ok
-                    self.t_wasm += time.time() - t0
+                    self.t_wasm += secs
             nxt = []
             for (job, p, w, d), out in zip(ok, ts_out):
                 rest_ts = self._absorb(results['ts'], p, out)
@@ -846,12 +856,18 @@ HOW = ('compiled driver (checks/c18_driver.py): one integer per printed line; pe
        'a trailing 1 = the compiled program panicked in that operation, 3 = other abnormal ending; '
        'replay: ./check C18 --replay <this file>  (or python3 -m checks.c18_driver --replay <this file>)')
 BACKEND = {'ts': 'TypeScript', 'wasm': 'WebAssembly'}
+UNSUPPORTED = {}          # operation kinds met in the input that the driver has no printer for -> count
 
 
 def make_items(cases, prefix, group, wasm_every, model_observed=None, whats=None):
     """cases: list of (kind, ops) -> items; a sequence is cut at the 32-bit bound (see the module docstring)"""
     items = []
     for i, (kind, ops) in enumerate(cases):
+        # an operation kind this driver cannot print (added to checks/c18.py later) ends the sequence; it is counted
+        known = next((j for j, o in enumerate(ops) if o[0] not in ALL_OPS[kind]), len(ops))
+        if known < len(ops):
+            UNSUPPORTED[ops[known][0]] = UNSUPPORTED.get(ops[known][0], 0) + 1
+            ops = ops[:known]
         n = safe_prefix(kind, ops)
         items.append({'tag': '%s%d' % (prefix, i), 'kind': kind, 'ops': list(ops[:n]), 'cut': n < len(ops), 'group': group,
                       'wasm': bool(wasm_every) and i % wasm_every == 0,
@@ -950,10 +966,13 @@ def run_items(ck, items, tag, budget, label):
             progs.append(p)
     res = r.run(progs, wasm_idx)
     t_run = time.time() - t0
+    nfail = len(ck.mon_fail) + len(ck.corr_fail)
     stats = judge(ck, items, res)
+    if len(ck.mon_fail) + len(ck.corr_fail) == nfail and not r.rejected and r.nprog > 64:
+        shutil.rmtree(r.dir, ignore_errors=True)             # large runs: keep the programs only when something was reported
     out = {'by_group': stats, 'programs_compiled': r.nprog, 'programs_also_run_in_chrome': len(wasm_idx),
            'wasm_engine_available': r.engine_ok,
-           'seconds': {'compile': round(r.t_compile, 1), 'node': round(r.t_ts, 1), 'chrome_wait_after_node': round(max(0.0, r.t_wasm - r.t_ts), 1),
+           'seconds': {'compile': round(r.t_compile, 1), 'node': round(r.t_ts, 1), 'chrome (concurrent with node)': round(r.t_wasm, 1),
                        'compile_and_run': round(t_run, 1), 'total_with_shrinking': round(time.time() - t0, 1)}}
     # a driver that the front end or the compiler refuses is a bug of this generator (or a compiler crash)
     ck.obligation('compiled drivers (%s): every generated driver program is accepted by the real compiler' % label,
@@ -1027,6 +1046,12 @@ def driver(ck, tier, seed, sequences=None, model_observed=None, corpus=True):
     stats['sequences_compiled_cap'] = cap
     stats['op_kinds_covered'] = {k: '%d/%d' % (len(covered.get(k, ())), len(ALL_OPS[k])) for k in ALL_OPS}
     stats['op_kinds_not_run'] = {k: sorted(set(ALL_OPS[k]) - covered.get(k, set())) for k in ALL_OPS}
+    stats['op_kinds_without_printer'] = dict(UNSUPPORTED)
+    g = stats['by_group'].get('generated', {})
+    ck.notes.append('layer C (compiled drivers): %d generated sequences on the real std compiled by the real compiler: node %d agree / %d '
+                    'deviate, Chrome %d agree / %d deviate; %d cut at the 32-bit bound; operation kinds covered %s'
+                    % (g.get('sequences', 0), g.get('ts_agree', 0), g.get('ts_deviate', 0), g.get('wasm_agree', 0),
+                       g.get('wasm_deviate', 0), g.get('cut_at_32bit_bound', 0), stats['op_kinds_covered']))
     ck.extra_cov['compiled_drivers'] = stats
     if TRUSTED not in ck.trusted:
         ck.trusted.append(TRUSTED)
